@@ -248,8 +248,16 @@ func structuralCheck(m *sipsp.PSIPMsg, buf []byte, start, n int, flags uint8) (c
 	} else {
 		flf, fln = []sipsp.PField{fl.Version, fl.StatusCode, fl.Reason}, []string{"Version", "StatusCode", "Reason"}
 	}
+	// the first line is the text up to the first CR or LF (it cannot be folded)
+	lineEnd := start
+	for lineEnd < n && buf[lineEnd] != '\r' && buf[lineEnd] != '\n' {
+		lineEnd++
+	}
 	prev := start
 	for i, f := range flf {
+		if pfNonZero(f) && fend(f) > lineEnd {
+			return bad("first-line-containment", fmt.Sprintf("FL.%s %v reaches beyond the first line, which ends at %d", fln[i], f, lineEnd))
+		}
 		if !inside(f, start, n) {
 			return bad("first-line-containment", fmt.Sprintf("FL.%s %v outside the consumed region [%d,%d)", fln[i], f, start, n))
 		}
@@ -259,10 +267,7 @@ func structuralCheck(m *sipsp.PSIPMsg, buf []byte, start, n int, flags uint8) (c
 		prev = fend(f)
 	}
 	// header lines by the reference splitter
-	flEnd := prev
-	for flEnd < n && buf[flEnd] != '\r' && buf[flEnd] != '\n' {
-		flEnd++
-	}
+	flEnd := lineEnd
 	if flEnd+1 < n && buf[flEnd] == '\r' && buf[flEnd+1] == '\n' {
 		flEnd += 2
 	} else {
